@@ -1235,6 +1235,12 @@ class EllipseFamily:
         avoid = 'ellipse-fix-persists' in st.cfg['avoid']
         if rng.chance(0.3):
             return {'op': 'fit_isophote', 'sma': rng.pick([5.0, 9.0, 14.0])}
+        if rng.chance(0.08):
+            # a call that is refused ("everything is fixed"): it returns an
+            # empty list and must leave the object as it was.  (Its own op
+            # name: on the pinned tree it does not write the flags, unlike
+            # the partial fix_* calls of the known finding.)
+            return {'op': 'fit_all_fixed', 'kw': {'maxsma': 12.0}}
         kw = {'maxsma': rng.pick([12.0, 16.0]),
               'minsma': rng.pick([0.0, 3.0]),
               'step': rng.pick([0.2, 0.3]), 'sma0': rng.pick([None, 6.0])}
@@ -1267,6 +1273,10 @@ class EllipseFamily:
         def run(obj):
             if op['op'] == 'fit_isophote':
                 return self._observe(call(obj.fit_isophote, op['sma']))
+            if op['op'] == 'fit_all_fixed':
+                return self._observe(call(
+                    obj.fit_image, fix_center=True, fix_pa=True,
+                    fix_eps=True, **op['kw']))
             return self._observe(call(obj.fit_image, **op['kw']))
         out = run(st.obj)
         st.trace.add('fit', digest(out))
@@ -1274,6 +1284,9 @@ class EllipseFamily:
         tag = op['op'][4:6] + ''.join(sorted(
             k[:5] for k, v in op.get('kw', {}).items()
             if k.startswith('fix') or (k == 'linear')))
+        if op['op'] == 'fit_all_fixed':
+            tag = 'ALLFIXED'
+            st.stats.fault('reject')
         if st.hist and any('fix' in h for h in st.hist) and 'fix' not in tag:
             st.stats.probe('fit_with_fix_then_without')
         _cmp(st, op['op'], out, exp,
